@@ -95,6 +95,7 @@ package commitment
 //@   props C11
 //@   requires p != nil && c != nil
 //@   modifies p.Discrepancy, p.SchedulerCommitments
+//@   trustframe
 //@   ensures err != ErrDiscrepancyDetected ==> p.Discrepancy == old(p.Discrepancy) && p.HighestRank == old(p.HighestRank)
 //@   ensures err == ErrDiscrepancyDetected ==> p.Discrepancy && !old(p.Discrepancy) && p.HighestRank == old(p.HighestRank)
 //@   ensures err == ErrDiscrepancyDetected ==> (forall r uint64 :: inDom(p.SchedulerCommitments, r) ==> r == p.HighestRank)
